@@ -505,17 +505,38 @@ class Check:
         (ROOT / "evidence" / f"{self.pid}.json").write_text(json.dumps(ev, indent=1, default=str))
 
 
-def pmap(fn, items, nproc=None):
-    """Fork-based parallel map (the implementation is called in-process inside each worker)."""
+class PmapTimeout(Exception):
+    pass
+
+
+def pmap(fn, items, nproc=None, timeout=None):
+    """Fork-based parallel map (the implementation is called in-process inside each worker).
+
+    `timeout` (seconds, default VERIF_PMAP_TIMEOUT or 2400) bounds the whole map: a worker stuck inside native code
+    (e.g. memory corrupted by a broken C routine) would otherwise block the check forever.  On expiry the pool is
+    terminated and PmapTimeout is raised (checks map it to exit 2 or to a termination failure where the property
+    is about termination)."""
     import multiprocessing as mp
 
     items = list(items)
     nproc = nproc or min(int(os.environ.get("VERIF_NPROC", "12")), max(1, len(items)))
+    timeout = timeout or float(os.environ.get("VERIF_PMAP_TIMEOUT", "2400"))
     if nproc <= 1 or len(items) < 4:
         return [fn(x) for x in items]
     ctx = mp.get_context("fork")
-    with ctx.Pool(nproc) as pool:
-        return pool.map(fn, items, chunksize=max(1, len(items) // (nproc * 4)))
+    pool = ctx.Pool(nproc)
+    try:
+        res = pool.map_async(fn, items, chunksize=max(1, len(items) // (nproc * 4)))
+        try:
+            out = res.get(timeout)
+        except mp.TimeoutError:
+            pool.terminate()
+            raise PmapTimeout(f"parallel map of {len(items)} cases did not finish within {timeout:.0f} s")
+        pool.close()
+        return out
+    finally:
+        pool.terminate()
+        pool.join()
 
 
 def case_rng(pid, seed, icase):
